@@ -67,8 +67,9 @@ def gen_model_(rng):
     params = {"tau": 0.4, "mu": 1.2, "th": 0.25}
     for j in range(4):
         params["k%d" % j] = rng.choice([0.5, 1.0, 2.0]); params["K%d" % j] = rng.choice([2.0, 3.0]); params["n%d" % j] = rng.choice([1.0, 2.0])
+    # (a state variable of an ODE-style model may start below zero: a deviation, a potential)
     return dict(species=list(SP) + ["S", "R"], reactions=rx, parameters=params, rules=rules,
-                initial_condition_dict={"A": 4, "B": 3, "C_1": 5, "S": 0, "R": 0})
+                initial_condition_dict={"A": 4, "B": 3, "C_1": rng.choice([5, 5, -2.5, 0.75]), "S": 0, "R": 0})
 
 
 def observe(M):
